@@ -47,6 +47,14 @@ fn to_control(&self) -> (r: ControlMessage)
         r.done.id == self.done.id, // OBL:C07.Timer_to_control.same_flag
         !self.is_restart ==> r.control is Stop, // OBL:C06.Timer_to_control.stop_kills
         self.is_restart ==> r.control is ContinueTryGracefulRestart, // OBL:C06.Timer_to_control.restart_continues
+//@ item priority::new
+//@ header
+pub fn priority_new() -> (r: (PrioritySender, PriorityReceiver))
+    ensures
+        // what is sent with a priority is received from the queue of that priority: each sender field is the other end of the receiver field of the same name
+        r.0.normal.which == r.1.normal.which, // OBL:C10.priority_new.each_sender_is_wired_to_the_receiver_of_its_priority
+        r.0.high.which == r.1.high.which, // OBL:C10.priority_new.each_sender_is_wired_to_the_receiver_of_its_priority
+        r.0.urgent.which == r.1.urgent.which, // OBL:C10.priority_new.each_sender_is_wired_to_the_receiver_of_its_priority
 //@ item PrioritySender::send
 //@ header
 pub fn send(&self, message: ControlMessage, priority: Priority, env: &mut Env)
@@ -363,73 +371,73 @@ invariant
 pub fn control(&self, control: Control, env: &mut Env) -> (r: Ticket)
     requires wf_tx(&self.control_queue),
     ensures
-        job_sends(self, $ENVS, priority_normal(), seq![control], r), // OBL:C10.job_control.sends_exactly
+        job_sends(self, $ENVS, priority_normal(), seq![control], r), // OBL:C10+C09.job_control.sends_exactly
 //@ item Job::start
 //@ header
 pub fn start(&self, env: &mut Env) -> (r: Ticket)
     requires wf_tx(&self.control_queue),
     ensures
-        job_sends(self, $ENVS, priority_normal(), seq![Control::Start], r), // OBL:C10+C05.job_start.sends_exactly
+        job_sends(self, $ENVS, priority_normal(), seq![Control::Start], r), // OBL:C10+C05+C09.job_start.sends_exactly
 //@ item Job::stop
 //@ header
 pub fn stop(&self, env: &mut Env) -> (r: Ticket)
     requires wf_tx(&self.control_queue),
     ensures
-        job_sends(self, $ENVS, priority_normal(), seq![Control::Stop], r), // OBL:C10.job_stop.sends_exactly
+        job_sends(self, $ENVS, priority_normal(), seq![Control::Stop], r), // OBL:C10+C09.job_stop.sends_exactly
 //@ item Job::stop_with_signal
 //@ header
 pub fn stop_with_signal(&self, signal: Signal, grace: Duration, env: &mut Env) -> (r: Ticket)
     requires wf_tx(&self.control_queue),
     ensures
-        job_sends(self, $ENVS, priority_normal(), seq![Control::GracefulStop { signal, grace }], r), // OBL:C10+C06.job_stop_with_signal.sends_exactly
+        job_sends(self, $ENVS, priority_normal(), seq![Control::GracefulStop { signal, grace }], r), // OBL:C10+C06+C09.job_stop_with_signal.sends_exactly
 //@ item Job::restart
 //@ header
 pub fn restart(&self, env: &mut Env) -> (r: Ticket)
     requires wf_tx(&self.control_queue),
     ensures
-        job_sends(self, $ENVS, priority_normal(), seq![Control::Stop, Control::Start], r), // OBL:C10+C05.job_restart.sends_exactly
+        job_sends(self, $ENVS, priority_normal(), seq![Control::Stop, Control::Start], r), // OBL:C10+C05+C09.job_restart.sends_exactly
 //@ item Job::restart_with_signal
 //@ header
 pub fn restart_with_signal(&self, signal: Signal, grace: Duration, env: &mut Env) -> (r: Ticket)
     requires wf_tx(&self.control_queue),
     ensures
-        job_sends(self, $ENVS, priority_normal(), seq![Control::GracefulStop { signal, grace }, Control::Start], r), // OBL:C10+C06.job_restart_with_signal.sends_exactly
+        job_sends(self, $ENVS, priority_normal(), seq![Control::GracefulStop { signal, grace }, Control::Start], r), // OBL:C10+C06+C09.job_restart_with_signal.sends_exactly
 //@ item Job::try_restart
 //@ header
 pub fn try_restart(&self, env: &mut Env) -> (r: Ticket)
     requires wf_tx(&self.control_queue),
     ensures
-        job_sends(self, $ENVS, priority_normal(), seq![Control::TryRestart], r), // OBL:C10.job_try_restart.sends_exactly
+        job_sends(self, $ENVS, priority_normal(), seq![Control::TryRestart], r), // OBL:C10+C09.job_try_restart.sends_exactly
 //@ item Job::try_restart_with_signal
 //@ header
 pub fn try_restart_with_signal(&self, signal: Signal, grace: Duration, env: &mut Env) -> (r: Ticket)
     requires wf_tx(&self.control_queue),
     ensures
-        job_sends(self, $ENVS, priority_normal(), seq![Control::TryGracefulRestart { signal, grace }], r), // OBL:C10+C06.job_try_restart_with_signal.sends_exactly
+        job_sends(self, $ENVS, priority_normal(), seq![Control::TryGracefulRestart { signal, grace }], r), // OBL:C10+C06+C09.job_try_restart_with_signal.sends_exactly
 //@ item Job::signal
 //@ header
 pub fn signal(&self, sig: Signal, env: &mut Env) -> (r: Ticket)
     requires wf_tx(&self.control_queue),
     ensures
-        job_sends(self, $ENVS, priority_normal(), seq![Control::Signal(sig)], r), // OBL:C10+C05.job_signal.sends_exactly
+        job_sends(self, $ENVS, priority_normal(), seq![Control::Signal(sig)], r), // OBL:C10+C05+C09.job_signal.sends_exactly
 //@ item Job::delete
 //@ header
 pub fn delete(&self, env: &mut Env) -> (r: Ticket)
     requires wf_tx(&self.control_queue),
     ensures
-        job_sends(self, $ENVS, priority_normal(), seq![Control::Stop, Control::Delete], r), // OBL:C10.job_delete.sends_exactly
+        job_sends(self, $ENVS, priority_normal(), seq![Control::Stop, Control::Delete], r), // OBL:C10+C09.job_delete.sends_exactly
 //@ item Job::delete_now
 //@ header
 pub fn delete_now(&self, env: &mut Env) -> (r: Ticket)
     requires wf_tx(&self.control_queue),
     ensures
-        job_sends(self, $ENVS, priority_urgent(), seq![Control::Stop, Control::Delete], r), // OBL:C10.job_delete_now.sends_exactly
+        job_sends(self, $ENVS, priority_urgent(), seq![Control::Stop, Control::Delete], r), // OBL:C10+C09.job_delete_now.sends_exactly
 //@ item Job::to_wait
 //@ header
 pub fn to_wait(&self, env: &mut Env) -> (r: Ticket)
     requires wf_tx(&self.control_queue),
     ensures
-        job_sends(self, $ENVS, priority_high(), seq![Control::NextEnding], r), // OBL:C10.job_to_wait.sends_exactly
+        job_sends(self, $ENVS, priority_high(), seq![Control::NextEnding], r), // OBL:C10+C09.job_to_wait.sends_exactly
 
 // ---- proof glue: the control handler's contract holds for EVERY control (case split over the per-group instances above) ----
 //@ item control_arm
